@@ -101,6 +101,7 @@ var RealCommands = map[string]bool{
 	"lpush": true, "rpush": true, "lpop": true, "rpop": true, "llen": true, "lrange": true, "lindex": true,
 	"sadd": true, "srem": true, "scard": true, "sismember": true, "smembers": true,
 	"zadd": true, "zscore": true, "zcard": true, "zrem": true,
+	"mget": true, "mset": true,
 }
 
 // Exec executes one command against the store with Redis semantics for the
@@ -120,6 +121,21 @@ func (s *Store) Exec(args [][]byte) resp.Value {
 	e := s.Data[key]
 	need := func(kind string) bool { return e == nil || e.Kind == kind }
 	switch cmd {
+	case "mget":
+		// defined as the per-key GET replies combined in argument order
+		out := make([]resp.Value, 0, len(args)-1)
+		for _, k := range args[1:] {
+			out = append(out, s.Exec([][]byte{[]byte("get"), k}))
+		}
+		return resp.Arr(out...)
+	case "mset":
+		if len(args)%2 != 1 {
+			return wrongArgs(cmd)
+		}
+		for i := 1; i+1 < len(args); i += 2 {
+			s.Exec([][]byte{[]byte("set"), args[i], args[i+1]})
+		}
+		return ok
 	case "get":
 		if !need("string") {
 			return wrongType
